@@ -1,6 +1,7 @@
 import KoordVerif.Model.C12
 import KoordVerif.Proofs.C12
 import KoordVerif.Proofs.C12None
+import KoordVerif.Proofs.C12ExtStatic
 /-
 C12 — property theorems (DESIGN.md §4 C12, Appendix A.5).
 
@@ -555,6 +556,174 @@ theorem none_policy_every_prefix_valid (hc : CacheOK s) (hnd : paths.Nodup)
   rw [a1]; exact b k'
 
 end NonePolicy
+
+/-! ### kubelet static policy: recover besteffort + pods, then write the containers -/
+
+section StaticPolicy
+variable (parent : Nat → Option Nat) (paths : List Nat) (depth : Nat → Nat) (R cpus : Nat) (exp : Bool) (s : St Nat)
+
+/-- dirs written by recoverCPUSetIfNeed(PodCgroupPathRelativeDepth) / by applyCPUSetWithStaticPolicy -/
+def spUpper (paths : List Nat) (depth : Nat → Nat) : List Nat := paths.filter fun n => decide (depth n ≤ podDepth)
+def spCtrs (paths : List Nat) (depth : Nat → Nat) : List Nat := paths.filter fun n => depth n == ctrDepth
+
+/-- the state the static-policy branch leaves: besteffort dir and pod dirs hold the recovered share pool `R`,
+    container dirs the suppressed set `cpus` (untouched when `cpus` is empty), everything else is untouched. -/
+def spFinal (paths : List Nat) (depth : Nat → Nat) (R cpus : Nat) (f : Nat → Nat) : Nat → Nat := fun n =>
+  if n ∈ paths ∧ depth n ≤ 1 then R
+  else if n ∈ paths ∧ depth n = 2 ∧ cpus ≠ 0 then cpus
+  else f n
+
+theorem sp_mem_upper (n : Nat) : n ∈ spUpper paths depth ↔ n ∈ paths ∧ depth n ≤ 1 := by
+  simp only [spUpper, podDepth, List.mem_filter]
+  constructor
+  · rintro ⟨h1, h2⟩; exact ⟨h1, of_decide_eq_true h2⟩
+  · rintro ⟨h1, h2⟩; exact ⟨h1, decide_eq_true h2⟩
+theorem sp_mem_ctrs (n : Nat) : n ∈ spCtrs paths depth ↔ n ∈ paths ∧ depth n = 2 := by
+  simp [spCtrs, ctrDepth]
+
+theorem sp_unfold :
+    staticPolicy exp paths depth (some R) cpus s =
+      (if cpus = 0 then
+        runPass (stepCached cpusetDom exp) ((spUpper paths depth).map fun n => { node := n, tgt := some R }) s
+       else
+        ((runPass (stepCached cpusetDom exp) ((spCtrs paths depth).map fun n => { node := n, tgt := some cpus })
+            (runPass (stepCached cpusetDom exp) ((spUpper paths depth).map fun n => { node := n, tgt := some R }) s).1).1,
+         (runPass (stepCached cpusetDom exp) ((spUpper paths depth).map fun n => { node := n, tgt := some R }) s).2 ++
+         (runPass (stepCached cpusetDom exp) ((spCtrs paths depth).map fun n => { node := n, tgt := some cpus })
+            (runPass (stepCached cpusetDom exp) ((spUpper paths depth).map fun n => { node := n, tgt := some R }) s).1).2)) := by
+  by_cases h : cpus = 0
+  · simp [staticPolicy, recoverIfNeed, applyStatic, spUpper, h]
+  · simp [staticPolicy, recoverIfNeed, applyStatic, spUpper, spCtrs, h]
+
+/-- **static_policy_final**: after the static-policy branch (calcBECPUSet succeeded with `R`) the besteffort dir
+    and every pod dir hold `R`, every container dir holds the suppressed set (when it is non-empty), and no
+    other file changed — for every tree, start state and cache state. -/
+theorem static_policy_final (hc : CacheOK s) (hnd : paths.Nodup) :
+    ∀ n, (staticPolicy exp paths depth (some R) cpus s).1.files n = spFinal paths depth R cpus s.files n := by
+  have hndU : (spUpper paths depth).Nodup := hnd.sublist List.filter_sublist
+  have hndC : (spCtrs paths depth).Nodup := hnd.sublist List.filter_sublist
+  obtain ⟨c1, f1, _⟩ := c_after exp (spUpper paths depth) R s hc hndU
+  intro n
+  rw [sp_unfold]
+  by_cases h : cpus = 0
+  · simp only [h, if_true]
+    rw [f1 n]
+    simp only [cB, sp_mem_upper, spFinal]
+    by_cases hu : n ∈ paths ∧ depth n ≤ 1 <;> simp [hu]
+  · simp only [h, if_false]
+    obtain ⟨_, f2, _⟩ := c_after exp (spCtrs paths depth) cpus _ c1 hndC
+    rw [f2 n]
+    simp only [cB, sp_mem_ctrs, spFinal]
+    rw [f1 n]
+    simp only [cB, sp_mem_upper]
+    by_cases hu : n ∈ paths ∧ depth n ≤ 1
+    · have hd : depth n ≠ 2 := by omega
+      simp [hu, hd]
+    · by_cases h2 : n ∈ paths ∧ depth n = 2 <;> simp [hu, h2, h]
+
+/-- **static_policy_every_prefix_valid**: `paths` = the walked BE dirs (a dir before everything below it, `htop`),
+    `parent`/`depth` the tree of these dirs (besteffort 0, pods 1, containers 2: `hin`, `hdep`, `hmax`), every BE dir
+    currently within the share pool `R` that calcBECPUSet returns (`hcov`), the suppressed set within `R` (`hcpus`),
+    the subtree valid at start (`hold`).  Then after every single write of
+    recoverCPUSetIfNeed(pod depth) ; applyCPUSetWithStaticPolicy — in this order — every child's CPU set is
+    contained in its parent's. -/
+theorem static_policy_every_prefix_valid (hc : CacheOK s) (hnd : paths.Nodup)
+    (htop : paths.Pairwise (fun a b => parent a ≠ some b))
+    (hin : ∀ c p, parent c = some p → c ∈ paths ∧ p ∈ paths)
+    (hdep : ∀ c p, parent c = some p → depth c = depth p + 1)
+    (hmax : ∀ n ∈ paths, depth n ≤ 2)
+    (hcov : ∀ n ∈ paths, subMask (s.files n) R)
+    (hcpus : subMask cpus R)
+    (hold : Valid parent subMask s.files) :
+    ∀ k, Valid parent subMask (applyWrites s.files ((staticPolicy exp paths depth (some R) cpus s).2.take k)) := by
+  have hndU : (spUpper paths depth).Nodup := hnd.sublist List.filter_sublist
+  have hndC : (spCtrs paths depth).Nodup := hnd.sublist List.filter_sublist
+  have htopU : (spUpper paths depth).Pairwise (fun a b => parent a ≠ some b) := htop.sublist List.filter_sublist
+  have htopC : (spCtrs paths depth).Pairwise (fun a b => parent a ≠ some b) := htop.sublist List.filter_sublist
+  -- the parent of an edge is always a dir written by the recover step
+  have hpU : ∀ c p, parent c = some p → p ∈ spUpper paths depth := by
+    intro c p h
+    obtain ⟨h1, h2⟩ := hin c p h
+    have := hdep c p h; have := hmax c h1
+    exact (sp_mem_upper paths depth p).mpr ⟨h2, by omega⟩
+  have hpC : ∀ c p, parent c = some p → p ∉ spCtrs paths depth := by
+    intro c p h hp
+    have := (sp_mem_upper paths depth p).mp (hpU c p h)
+    have := (sp_mem_ctrs paths depth p).mp hp
+    omega
+  -- F1 = assignment after the recover step
+  have f1cov : ∀ n, n ∈ paths → subMask (cB (spUpper paths depth) R s.files n) R := by
+    intro n hn
+    by_cases h : n ∈ spUpper paths depth <;> simp only [cB, h, if_true, if_false]
+    · exact subMask_refl R
+    · exact hcov n hn
+  have vF1 : Valid parent subMask (cB (spUpper paths depth) R s.files) := by
+    intro c p h
+    have : cB (spUpper paths depth) R s.files p = R := by simp [cB, hpU c p h]
+    rw [this]; exact f1cov c (hin c p h).1
+  have a := c_prefix parent subMask exp (spUpper paths depth) R s hc hndU htopU hold vF1
+    (by intro c p h
+        have : cB (spUpper paths depth) R s.files p = R := by simp [cB, hpU c p h]
+        rw [this]; exact hcov c (hin c p h).1)
+  obtain ⟨c1, f1, r1⟩ := c_after exp (spUpper paths depth) R s hc hndU
+  intro k
+  rw [sp_unfold]
+  by_cases h0 : cpus = 0
+  · simp only [h0, if_true]; exact a k
+  · simp only [h0, if_false]
+    have hf1 : (runPass (stepCached cpusetDom exp)
+        ((spUpper paths depth).map fun n => ({ node := n, tgt := some R } : Upd Nat)) s).1.files =
+        cB (spUpper paths depth) R s.files := funext f1
+    have vF2 : Valid parent subMask (cB (spCtrs paths depth) cpus (cB (spUpper paths depth) R s.files)) := by
+      intro c p h
+      have hp : cB (spCtrs paths depth) cpus (cB (spUpper paths depth) R s.files) p = R := by
+        simp [cB, hpU c p h, hpC c p h]
+      rw [hp]
+      by_cases hcc : c ∈ spCtrs paths depth <;> simp only [cB, hcc, if_true, if_false]
+      · exact hcpus
+      · exact f1cov c (hin c p h).1
+    have b := c_prefix parent subMask exp (spCtrs paths depth) cpus _ c1 hndC htopC
+      (by rw [hf1]; exact vF1) (by rw [hf1]; exact vF2)
+      (by rw [hf1]; intro c p h
+          have : cB (spCtrs paths depth) cpus (cB (spUpper paths depth) R s.files) p =
+              cB (spUpper paths depth) R s.files p := by simp [cB, hpC c p h]
+          rw [this]; exact vF1 c p h)
+    apply prefix_append (Valid parent subMask) s.files _ _ a
+    intro k'
+    rw [r1]; exact b k'
+
+end StaticPolicy
+
+/-- the ORDER of the two steps matters: containers first, pods afterwards (the swapped order) passes through an
+    invalid hierarchy on the tree besteffort(0) ← pod(1) ← container(2), all dirs on 0-3 (left by a none-policy
+    round), share pool 0-7, new suppressed set 2-5 — although the end state is the same. -/
+def spExParent : Nat → Option Nat
+  | 1 => some 0 | 2 => some 1 | _ => none
+def spExS : St Nat := { files := fun n => if n ≤ 2 then 15 else 0, cache := fun _ => none, skip := [] }
+def spSwapped : St Nat × List (Write Nat) :=
+  let r2 := applyStatic false [0, 1, 2] (fun n => n) 60 spExS
+  let r1 := recoverIfNeed false [0, 1, 2] (fun n => n) podDepth (some 255) r2.1
+  (r1.1, r2.2 ++ r1.2)
+
+theorem static_policy_swapped_order_counterexample :
+    ¬ (∀ k, Valid spExParent subMask (applyWrites spExS.files (spSwapped.2.take k))) ∧
+    (∀ n, n ≤ 3 → spSwapped.1.files n = (staticPolicy false [0, 1, 2] (fun n => n) (some 255) 60 spExS).1.files n) := by
+  refine ⟨fun h => ?_, by decide⟩
+  have := h 1 2 1 rfl
+  revert this; decide
+
+/-- static-policy non-vacuity: the same tree and values in the order the code uses. -/
+example : (staticPolicy false [0, 1, 2] (fun n => n) (some 255) 60 spExS).2 = [(0, 255), (1, 255), (2, 60)] := by decide
+example : ∀ k, Valid spExParent subMask (applyWrites spExS.files
+    ((staticPolicy false [0, 1, 2] (fun n => n) (some 255) 60 spExS).2.take k)) :=
+  static_policy_every_prefix_valid spExParent [0, 1, 2] (fun n => n) 255 60 false spExS
+    (by intro n v h; simp [spExS] at h) (by decide) (by simp [spExParent])
+    (by intro c p h; unfold spExParent at h; split at h <;> cases h <;> simp)
+    (by intro c p h; unfold spExParent at h; split at h <;> cases h <;> rfl)
+    (by intro n hn; simp at hn; rcases hn with h | h | h <;> subst h <;> decide)
+    (by intro n hn; simp at hn; rcases hn with h | h | h <;> subst h <;> decide)
+    (by decide)
+    (by intro c p h; unfold spExParent at h; split at h <;> cases h <;> decide)
 
 /-! ### non-vacuity: a CPU-set *shift* on a 3-level tree (0 ← 1 ← 2, 0 ← 3) -/
 
